@@ -15,15 +15,18 @@ spec/Reader.tla (L): reader.py as a state machine; the environment chooses docum
      form under seeded read-size schedules with splits forced at refill boundaries, inside multi-byte sequences, inside
      surrogate pairs and between CR and LF; reader-level and pipeline-level observations judged by TLC (Trace_Delivery).
 """
-import glob, json, os, random, re, threading, multiprocessing as mp
+import glob, hashlib, json, os, random, re, threading, multiprocessing as mp
 from .. import tlc, tlaval, trace
 from ..common import Verdict, use_repo, REPO, SEED
 from ..drivers import delivery as D
 
 ALL_FORMS = D.FORMS
+STREAMS = ['text', 's8', 's8bom', 's16le', 's16be']
+EAGER = ['str', 'b8', 'b8bom', 'b16le', 'b16be']
 A_WIDTHS = ['A', 'B2', 'B3', 'B4', 'LF']
 A_BREAKS = ['A', 'CR', 'LF', 'NEL', 'LS', 'BOM']
 A_ERRORS = ['A', 'B3', 'NP1', 'NP3', 'INV', 'TR1', 'TR2', 'ODD']
+BOMCH = '\ufeff'
 
 
 def tla_set(xs):
@@ -40,26 +43,25 @@ def cfg(alphabet, maxdoc, forms=ALL_FORMS, programs=('any',), history=False, fix
 def design_configs(tier, fixed):
     q = tier == 'quick'
     n = 3 if q else 4
-    return [
+    out = [
         ('widths', cfg(A_WIDTHS, n, forms=['s8', 's8bom', 's16le', 's16be', 'text', 'b8', 'b16be'], fixed=fixed)),
-        ('breaks', cfg(A_BREAKS, n, forms=['str', 'text', 's8', 's16le', 'b8bom', 'b16le'], fixed=fixed,
-                       peek=2 if q else 2, prefix=3 if q else 3)),
+        ('breaks', cfg(A_BREAKS, n, forms=['str', 'text', 's8', 's16le', 'b8bom', 'b16le'], fixed=fixed)),
         ('errors', cfg(A_ERRORS, n, fixed=fixed)),
-    ] + ([] if q else [('block3', cfg(['A', 'B3', 'B4', 'CR', 'LF', 'NP1', 'INV', 'TR2'], 3, block=3, fixed=fixed)),
-                       ('long', cfg(['A', 'B4', 'CR', 'LF'], 6, forms=['s8', 's16le', 'text'], programs=['p11', 'x22'],
-                                    fixed=fixed))])
+    ]
+    if not q:
+        out += [('block3', cfg(['A', 'B3', 'B4', 'CR', 'LF', 'NP1', 'INV', 'TR2'], 3, block=3, fixed=fixed)),
+                ('long', cfg(['A', 'B4', 'CR', 'LF'], 6, forms=['s8', 's16le', 'text'], programs=['p11', 'x22'], fixed=fixed))]
+    return out
 
 
 def mbt_configs(tier, fixed):
     q = tier == 'quick'
-    streams = ['text', 's8', 's8bom', 's16le', 's16be']
-    eager = ['str', 'b8', 'b8bom', 'b16le', 'b16be']
     return [
-        ('m-widths', cfg(['A', 'B3', 'B4', 'CR', 'LF'], 3 if q else 4, forms=streams + eager, programs=['p11', 'x22'] if q else ['p11', 'x22', 'p32'],
-                         history=True, fixed=fixed)),
-        ('m-breaks', cfg(['A', 'CR', 'LF', 'NEL', 'BOM'], 3 if q else 4, forms=['text', 's8', 's16be', 'str'], programs=['p21', 'x33'],
-                         history=True, fixed=fixed)),
-        ('m-errors', cfg(['A', 'B2', 'NP1', 'NP3', 'INV', 'TR1', 'TR2', 'ODD'], 3, forms=streams + eager,
+        ('m-widths', cfg(['A', 'B3', 'B4', 'CR', 'LF'], 3 if q else 4, forms=STREAMS + EAGER,
+                         programs=['p11', 'x22'] if q else ['p11', 'x22', 'p32'], history=True, fixed=fixed)),
+        ('m-breaks', cfg(['A', 'CR', 'LF', 'NEL', 'BOM'], 3 if q else 4, forms=['text', 's8', 's16be', 'str'],
+                         programs=['p21', 'x33'], history=True, fixed=fixed)),
+        ('m-errors', cfg(['A', 'B2', 'NP1', 'NP3', 'INV', 'TR1', 'TR2', 'ODD'], 3, forms=STREAMS + EAGER,
                          programs=['p11', 'x33'] if q else ['p11', 'x33', 'p21'], history=True, fixed=fixed)),
     ]
 
@@ -73,7 +75,7 @@ def run_parallel(jobs, workers):
     out = {}
 
     def one(name, kw):
-        out[name] = tlc.run('Reader', cfg='MC_Reader.cfg', workers=workers, **kw)
+        out[name] = tlc.run('Reader', workers=workers, **kw)
     th = [threading.Thread(target=one, args=j) for j in jobs]
     for t in th:
         t.start()
@@ -82,10 +84,9 @@ def run_parallel(jobs, workers):
     return out
 
 
-# ------------------------------------------------------------------------------------------------ probe: which variant of update()
 def code_is_printable_first(yaml):
     """L follows the code: does update() report a non-printable character that precedes an undecodable byte of the same
-    decode batch?  (decides which variant of Decode is model-checked against the weak / strict clause; no verdict here)"""
+    decode batch?  Decides which variant of Decode is model-checked (no verdict here)."""
     try:
         yaml.reader.Reader(b'a\x01b\xff')
     except yaml.reader.ReaderError as e:
@@ -97,6 +98,7 @@ def code_is_printable_first(yaml):
 
 # ------------------------------------------------------------------------------------------------ (b) replay of TLC behaviours
 _triple = re.compile(r'^"TRIPLE (.*)"$')
+_head = re.compile(r'^<<"(\w+)", "(\w+)", (<<.*?>>), ')
 
 
 def parse_triples(out):
@@ -109,8 +111,8 @@ def parse_triples(out):
 
 
 def expected_obs(prog, text, hpos):
-    """the observations H demands of the consumer program `prog` on the character sequence `text` (T of the spec, made
-    concrete) with TLC's Pos table: the program is run against the ideal character sequence"""
+    """the observations H demands of the consumer program `prog`: the program run against the characters `text` (T of the
+    spec, made concrete) and TLC's Pos table"""
     kind, look, step = D.PROGRAMS[prog]
     ahead, idx, out = '', 0, []
     while True:
@@ -119,204 +121,267 @@ def expected_obs(prog, text, hpos):
             if kind == 'p':
                 i = len(ahead)
                 if idx + i >= len(text):
-                    return out, 'open'
+                    return out
                 out.append(('peek', i, text[idx + i]))
                 ahead += text[idx + i]
             else:
                 s = text[idx:idx + look]
                 if len(s) < look and not s.endswith('\0'):
-                    return out, 'open'
+                    return out
                 out.append(('prefix', look, s))
                 ahead = s
         else:
             good = ahead.index('\0') if '\0' in ahead else len(ahead)
             if good == 0:
-                return out, 'end'
+                return out
             l = min(step, good)
             idx += l
             if idx >= len(hpos) or not hpos[idx]:
-                return out, 'open'
+                return out
             out.append(('forward', l, idx, hpos[idx][0], hpos[idx][1]))
             ahead = ahead[l:]
 
 
+def doc_rnd(seed, doc, c):
+    return random.Random('%d/%s/%d' % (seed, ','.join(doc), c))
+
+
+def concretise_doc(doc, rnd, syntax):
+    """one concrete choice per symbol, valid for every form: characters for character symbols; for the undecodable
+    symbols a choice index resolved per encoding"""
+    out = []
+    for s in doc:
+        if s in D.POOL:
+            pool = D.POOL[s] + (D.SYNTAX_A if (s == 'A' and syntax) else [])
+            out.append(rnd.choice(pool))
+        else:
+            out.append((s, rnd.randrange(1 << 16)))
+    return out
+
+
+def encode_concrete(doc, conc, form):
+    """-> (data, list of pieces) in the form; every abstract unit is one real unit"""
+    enc = D.ENC[form]
+    pieces, prev = [], None
+    for s, ch in zip(doc, conc):
+        if isinstance(ch, str):
+            pieces.append(ch if enc is None else ch.encode(enc))
+        elif enc == 'utf-8':
+            cand = D.BAD8[s]
+            if s == 'INV' and prev in ('TR1', 'TR2'):
+                cand = [x for x in cand if not 0x80 <= x[0] <= 0xbf]
+            pieces.append(cand[ch[1] % len(cand)])
+        elif s == 'ODD':
+            pieces.append([b'a', b'\xd8', b'\x00'][ch[1] % 3])
+        else:
+            cand = D.BAD16[s]
+            pieces.append(cand[ch[1] % len(cand)].encode(enc, 'surrogatepass'))
+        prev = s
+    if enc is None:
+        return ''.join(pieces), pieces
+    return D.BOM.get(form, b'') + b''.join(pieces), pieces
+
+
 def replay_work(args):
-    lines, seed, nconc, want_pipe = args
+    groups, seed, nconc = args
     yaml = use_repo()
     from yaml.reader import Reader, ReaderError
-    rnd = random.Random(seed)
-    res = {'n': 0, 'runs': 0, 'bad': [], 'drift': 0, 'drift_ex': [], 'pipe': [], 'samples': [], 'nontrivial': 0, 'kinds': {}}
-    for ln in lines:
-        form, prog, doc, calls, pc, T, hpos, einfo, lfin = tlaval.parse(ln)
-        res['n'] += 1
-        res['kinds'][pc] = res['kinds'].get(pc, 0) + 1
-        if len(calls) > 2 or any(s in ('B2', 'B3', 'B4', 'CR', 'BOM', 'NEL') for s in doc):
-            res['nontrivial'] += 1
+    res = {'n': 0, 'runs': 0, 'bad': [], 'drift': 0, 'drift_ex': [], 'traces': [], 'meta': [], 'samples': [], 'nontrivial': 0,
+           'kinds': {}}
+    for lines in groups:
+        parsed = [tlaval.parse(ln) for ln in lines]
+        doc = parsed[0][2]
         for c in range(nconc):
-            data, pieces = D.concretise(doc, form, rnd, syntax=(c % 2 == 1))
-            # the characters of T, concrete: byte order mark, the good prefix of the document, NUL if T has it
-            enc = D.ENC[form]
-            ngood = len(T) - (1 if form in D.BOM else 0) - (1 if T and T[-1] == 'NUL' else 0)
-            good = [p if enc is None else p.decode(enc) for p in pieces[:ngood]]
-            text = ('﻿' if form in D.BOM else '') + ''.join(good) + ('\0' if T and T[-1] == 'NUL' else '')
-            want, wend = expected_obs(prog, text, hpos)
-            src = D.ScriptedStream(data, calls) if form in D.STREAM else data
-            got, rerr, exc = [], None, None
-            r = None
-            try:
-                r = Reader(src)
-                got = D.drive(r, prog)
-            except ReaderError as e:
-                rerr = ('unprintable' if e.encoding == 'unicode' else 'undecodable', e.position)
-                if r is not None:
-                    pass
-            except Exception as e:
-                exc = type(e).__name__
-            res['runs'] += 1
-            case = {'form': form, 'prog': prog, 'doc': doc, 'schedule': calls, 'data': repr(data), 'model_end': pc}
-            # H verdicts
-            why = None
-            if exc:
-                why = ('crash', 'non-YAML exception %s' % exc)
-            else:
-                k = min(len(got), len(want))
-                if got[:k] != want[:k]:
-                    j = next(i for i in range(k) if got[i] != want[i])
-                    why = ('position' if got[j][0] == 'forward' else 'char',
-                           'call %d: got %r, the document demands %r' % (j, got[j], want[j]))
-                elif len(got) > len(want):
-                    why = ('char', 'the reader delivered %r beyond the document %r' % (got[len(want)], text))
-                elif pc == 'error':
-                    hk, hp = einfo[0], einfo[1]
-                    if rerr is None:
-                        why = ('error-missing', 'offending unit %s at %d not reported' % (hk, hp))
-                    elif rerr != (hk, hp):
-                        offs = [(o['kind'], o['pos']) for o in tlaval.setval(einfo[4])]
-                        why = ('error-not-first' if rerr in offs else 'error-offset',
-                               'ReaderError %r, first offending unit is %r' % (rerr, (hk, hp)))
-                        case['got'], case['want'] = rerr[0], hk
+            conc = concretise_doc(doc, doc_rnd(seed, doc, c), syntax=(c % 2 == 1))
+            for form, prog, _doc, calls, pc, T, hpos, einfo, lfin in parsed:
+                if c == 0:
+                    res['n'] += 1
+                    res['kinds'][pc] = res['kinds'].get(pc, 0) + 1
+                    if len(calls) > 2 and any(s not in ('A', 'LF') for s in doc):
+                        res['nontrivial'] += 1
+                data, pieces = encode_concrete(doc, conc, form)
+                enc = D.ENC[form]
+                ngood = len(T) - (1 if form in D.BOM else 0) - (1 if T and T[-1] == 'NUL' else 0)
+                good = [p if enc is None else p.decode(enc) for p in pieces[:ngood]]
+                text = (BOMCH if form in D.BOM else '') + ''.join(good) + ('\0' if T and T[-1] == 'NUL' else '')
+                want = expected_obs(prog, text, hpos)
+                src = D.ScriptedStream(data, calls) if form in D.STREAM else data
+                got, rerr, exc, r = [], None, None, None
+                try:
+                    r = Reader(src)
+                    got = D.drive(r, prog)
+                except ReaderError as e:
+                    rerr = ('unprintable' if e.encoding == 'unicode' else 'undecodable', e.position)
+                except Exception as e:
+                    exc = type(e).__name__
+                res['runs'] += 1
+                case = {'form': form, 'prog': prog, 'doc': doc, 'schedule': calls, 'data': repr(data), 'model_end': pc}
+                why = None
+                if exc:
+                    why = ('crash', 'non-YAML exception %s' % exc)
                 else:
-                    if rerr is not None:
+                    k = min(len(got), len(want))
+                    if got[:k] != want[:k]:
+                        j = next(i for i in range(k) if got[i] != want[i])
+                        why = ('position' if got[j][0] == 'forward' else 'char',
+                               'call %d: got %r, the document demands %r' % (j, got[j], want[j]))
+                    elif len(got) > len(want):
+                        why = ('char', 'the reader delivered %r beyond the document %r' % (got[len(want)], text))
+                    elif pc == 'error':
+                        hk, hp = einfo[0], einfo[1]
+                        if rerr is None:
+                            why = ('error-missing', 'offending unit %s at %d not reported' % (hk, hp))
+                        elif rerr != (hk, hp):
+                            offs = [(o['kind'], o['pos']) for o in tlaval.setval(einfo[4])]
+                            why = ('error-not-first' if rerr in offs else 'error-offset',
+                                   'ReaderError %r, first offending unit is %r' % (rerr, (hk, hp)))
+                            case['got'], case['want'] = rerr[0], hk
+                    elif rerr is not None:
                         why = ('error-spurious', 'ReaderError %r on a document without offending unit' % (rerr,))
                     elif len(got) < len(want):
                         why = ('char', 'the consumer stopped early: %d of %d calls' % (len(got), len(want)))
-            if why:
-                res['bad'].append({'key': {'level': 'reader', 'clause': why[0], 'backend': 'py',
-                                           'got': case.get('got', ''), 'want': case.get('want', '')},
-                                   'detail': dict(case, why=why[1])})
-            # L drift probes (internal attributes, never a verdict)
-            if why is None and form in D.STREAM:
-                lerr = (einfo[2], einfo[3]) if pc == 'error' else None
-                sp = getattr(r, 'stream_pointer', None) if r is not None else None
-                if (rerr is not None and lerr is not None and rerr != lerr) or src.extra or src.k != len(calls) or \
-                        (sp is not None and pc == 'end' and sp != lfin[0]):
-                    res['drift'] += 1
-                    if len(res['drift_ex']) < 3:
-                        res['drift_ex'].append(dict(case, real_reads=src.k, model_reads=len(calls), real_err=rerr, model_err=lerr))
-            if len(res['samples']) < 1 and pc == 'error' and len(calls) > 2:
-                res['samples'].append(dict(case, error=rerr))
-            if want_pipe:
-                res['pipe'].append((doc, form, calls, c))
+                if why:
+                    res['bad'].append({'key': {'level': 'reader', 'clause': why[0], 'backend': 'py',
+                                               'got': case.get('got', ''), 'want': case.get('want', '')},
+                                       'detail': dict(case, why=why[1])})
+                elif form in D.STREAM:                       # L drift probes (internal attributes, never a verdict)
+                    lerr = (einfo[2], einfo[3]) if pc == 'error' else None
+                    sp = getattr(r, 'stream_pointer', None) if r is not None else None
+                    if (rerr is not None and lerr is not None and rerr != lerr) or src.extra or src.k != len(calls) or \
+                            (sp is not None and pc == 'end' and sp != lfin[0]):
+                        res['drift'] += 1
+                        if len(res['drift_ex']) < 2:
+                            res['drift_ex'].append(dict(case, real_reads=src.k, model_reads=len(calls), real_err=rerr,
+                                                        model_err=lerr, real_spos=sp, model_spos=lfin[0]))
+                if len(res['samples']) < 1 and pc == 'error' and len(calls) > 2:
+                    res['samples'].append(dict(case, error=rerr))
+            # the same triples through the whole pipeline, judged by TLC against the in-memory delivery
+            ts = pipe_traces(yaml, doc, conc, sorted({(p[0], tuple(p[3])) for p in parsed}))
+            res['traces'] += ts
+            res['meta'] += [{'doc': doc, 'conc': repr(conc)}] * len(ts)
     return res
 
 
 # ------------------------------------------------------------------------------------------------ pipeline observations
 def hitem(s):
-    import hashlib
     return hashlib.sha1(s.encode('utf-8', 'surrogatepass')).hexdigest()[:12]
 
 
-NOERR = {'cls': '', 'problem': '', 'context': '', 'pl': -1, 'pc': -1, 'cl': -1, 'cc': -1, 'pi': -1, 'rd': False, 'rkind': '', 'rpos': -1}
+NOERR = {'cls': '', 'problem': '', 'context': '', 'pl': -1, 'pc': -1, 'cl': -1, 'cc': -1, 'pi': -1, 'rd': False, 'rkind': '',
+         'rpos': -1}
 
 
-def outcome(yaml, api, be, src, form, bomchars):
+def outcome(yaml, api, be, src, form):
     o = D.run_api(yaml, api, be, src)
     e = dict(NOERR)
     if o['err']:
         e.update({k: v for k, v in o['err'].items() if k in NOERR})
-        if be == 'py' and e['pi'] >= 0:
-            e['pi'] -= bomchars            # index is excluded when a BOM is present (5.0): normalised to the document
+        if be == 'py' and e['pi'] >= 0 and form in D.BOM:
+            e['pi'] -= 1                   # index is not compared when a BOM is present (5.0): normalised to the document
         e['problem'] = hitem(e['problem'])
         e['context'] = hitem(e['context'])
-    return {'form': form, 'api': api, 'be': be, 'st': o['st'], 'items': D.digest([hitem(x) for x in o['items']]), 'err': e}
+    return {'form': form, 'api': api, 'be': be, 'st': o['st'], 'items': D.digest([hitem(x) for x in o['items']]), 'err': e,
+            'raw_err': o['err']}
 
 
-def defects_of(units, text_ok):
-    """abstraction of a concrete input: offending units with their offsets in every form.
-    units: list of (piece, is_char) in document order, piece = str (a character) or bytes (an undecodable piece of the
-    form's encoding; such documents exist in one encoding only)."""
-    raise NotImplementedError
-
-
-def pipe_trace(yaml, text, bad_at, deliveries, exact=True):
-    """text: the decodable document (str); bad_at: None or (char index, bytes piece, encoding) for an undecodable piece
-    inserted before text[char index] (then only forms of that encoding are delivered).
-    deliveries: list of (form, schedule or None).  Returns the trace for Trace_Delivery.tla."""
-    forms = sorted({f for f, _ in deliveries})
-
-    def raw(form):
-        if bad_at is None:
-            return D.encode_form(text, form)
-        i, piece, enc = bad_at
-        return D.BOM.get(form, b'') + text[:i].encode(enc, 'surrogatepass') + piece + text[i:].encode(enc, 'surrogatepass')
-
+def offsets(text, tail_enc):
+    """abstraction of the document: offending units with their offset in every form, as each back-end counts them"""
     def upos(form, i, be):
-        """offset of character i of the document in units of the form, as back-end `be` counts them"""
         enc = D.ENC[form]
-        if be == 'py' and (enc is None):
-            return i
         if enc is None:
-            return len(text[:i].encode('utf-8', 'surrogatepass'))           # the binding re-encodes str input to UTF-8
+            return i if be == 'py' else len(text[:i].encode('utf-8', 'surrogatepass'))   # the binding re-encodes to UTF-8
         return len(D.BOM.get(form, b'')) + len(text[:i].encode(enc, 'surrogatepass'))
     defects = []
     m = D.NONPRINTABLE.search(text)
     if m:
         i = m.start()
-        defects.append({'kind': 'unprintable', 'cidx': i,
-                        'ppos': {f: (i + (1 if f in D.BOM else 0)) for f in D.FORMS},
+        defects.append({'kind': 'unprintable', 'cidx': i, 'ppos': {f: i + (1 if f in D.BOM else 0) for f in D.FORMS},
                         'cpos': {f: upos(f, i, 'c') for f in D.FORMS}})
-    if bad_at is not None:
-        i = bad_at[0]
-        defects.append({'kind': 'undecodable', 'cidx': i, 'ppos': {f: upos(f, i, 'c') if D.ENC[f] else -1 for f in D.FORMS},
-                        'cpos': {f: upos(f, i, 'c') if D.ENC[f] else -1 for f in D.FORMS}})
-        if m and m.start() >= i:
-            defects = defects[1:]           # characters after the undecodable piece are not characters of the document
+    if tail_enc is not None:
+        i = len(text)
+        b = {f: (upos(f, i, 'c') if D.ENC[f] == tail_enc else -1) for f in D.FORMS}
+        defects.append({'kind': 'undecodable', 'cidx': i, 'ppos': b, 'cpos': b})
+    return defects
+
+
+def pipe_trace_set(yaml, text, tails, deliveries, meta_sym=()):
+    """text: the decodable characters of the document; tails: {} or {encoding: bytes that follow them, beginning with an
+    undecodable piece}; deliveries: list of (form, schedule).  One trace per (back-end, API): the in-memory delivery (str, or
+    the bytes object when the document is not decodable) against all others."""
+    def raw(form):
+        enc = D.ENC[form]
+        if enc is None:
+            return text
+        return D.BOM.get(form, b'') + text.encode(enc, 'surrogatepass') + tails.get(enc, b'')
     breaks, boms = D.line_structure(text)
-    sym = []
     traces = []
-    for be in ('py', 'c'):
-        for api in D.APIS:
-            ref_form = 'str' if bad_at is None else {'utf-8': 'b8', 'utf-16-le': 'b16le', 'utf-16-be': 'b16be'}[bad_at[2]]
-            if bad_at is not None and ref_form not in forms:
-                ref_form = [f for f in forms if f not in D.STREAM][0]
-            ref = outcome(yaml, api, be, raw(ref_form), ref_form, 1 if ref_form in D.BOM else 0)
-            seen, dels = {}, []
-            for form, sched in deliveries:
-                data = raw(form)
-                src = D.ScriptedStream(data, sched) if form in D.STREAM else data
-                o = outcome(yaml, api, be, src, form, 1 if form in D.BOM else 0)
-                k = json.dumps([o['st'], o['items'], o['err'], form if o['err']['rd'] else ''], sort_keys=True)
-                if k in seen:
-                    seen[k]['n'] += 1
-                    continue
-                o['n'] = 1
-                o['sched'] = list(sched[:12]) if sched else []
-                seen[k] = o
-                dels.append(o)
-            traces.append({'kind': 'pipe', 'form': 'str', 'sym': sym, 'breaks': breaks, 'boms': boms, 'exact': exact,
-                           'defects': defects, 'ref': ref, 'dels': dels})
+    groups = {}
+    for form, sched in deliveries:
+        enc = D.ENC[form]
+        g = enc if tails else 'all'
+        if tails and enc not in tails:
+            continue
+        groups.setdefault(g, []).append((form, sched))
+    for g, dels in groups.items():
+        defects = offsets(text, g if tails else None)
+        ref_form = 'str' if not tails else {'utf-8': 'b8', 'utf-16-le': 'b16le', 'utf-16-be': 'b16be'}[g]
+        for be in ('py', 'c'):
+            for api in D.APIS:
+                ref = outcome(yaml, api, be, raw(ref_form), ref_form)
+                seen, outs = {}, []
+                for form, sched in dels:
+                    data = raw(form)
+                    src = D.ScriptedStream(data, sched) if form in D.STREAM else data
+                    o = outcome(yaml, api, be, src, form)
+                    k = json.dumps([o['st'], o['items'], o['err'], form if o['err']['rd'] else ''], sort_keys=True)
+                    if k in seen:
+                        seen[k]['n'] += 1
+                        continue
+                    o['n'] = 1
+                    o['sched'] = list(sched[:16])
+                    seen[k] = o
+                    outs.append(o)
+                traces.append({'kind': 'pipe', 'form': 'str', 'sym': [], 'breaks': breaks, 'boms': boms, 'exact': not tails,
+                               'defects': defects, 'ref': ref, 'dels': outs, 'ndel': len(dels)})
     return traces
 
 
-def pipe_work(args):
-    items, seed = args
-    yaml = use_repo()
-    rnd = random.Random(seed)
-    out = []
-    for doc, form, calls, c in items:
-        # one concretisation of the document for all forms: decodable documents only (bad units are reader-level)
-        out.append(None)
-    return out
+def pipe_traces(yaml, doc, conc, deliveries):
+    """the documents of the TLC run through the pipeline: characters up to the first undecodable symbol are the text,
+    the rest is the tail of each encoding"""
+    cut = next((i for i, s in enumerate(doc) if s in ('INV', 'TR1', 'TR2', 'ODD')), None)
+    text = ''.join(conc[:cut] if cut is not None else conc)
+    tails = {}
+    if cut is not None:
+        for enc, form in (('utf-8', 'b8'), ('utf-16-le', 'b16le'), ('utf-16-be', 'b16be')):
+            if all(s not in ('TR2',) or enc == 'utf-8' for s in doc) and all(s != 'ODD' or enc != 'utf-8' for s in doc):
+                _, pieces = encode_concrete(doc, conc, form)
+                tails[enc] = b''.join(pieces[cut:])
+    return pipe_trace_set(yaml, text, tails, deliveries)
+
+
+def strip_raw(t):
+    t = dict(t)
+    t['ref'] = {k: v for k, v in t['ref'].items() if k != 'raw_err'}
+    t['dels'] = [{k: v for k, v in o.items() if k != 'raw_err'} for o in t['dels']]
+    return t
+
+
+def judge_pipe(v, traces, metas, tag, stage):
+    if not traces:
+        return 0, 0
+    verdicts, s = trace.judge('Trace_Delivery', [strip_raw(t) for t in traces], tag)
+    for t, m, (ok, why, at) in zip(traces, metas, verdicts):
+        if not ok:
+            o = t['dels'][at - 1] if at >= 1 else t['ref']
+            key = {'level': 'pipeline', 'stage': stage, 'clause': why, 'backend': o['be'], 'api': o['api']}
+            if why == 'reader error is not the first offending unit':
+                key['got'] = o['err']['rkind']
+            v.violation(key, {'input': m, 'delivery': {k: o[k] for k in ('form', 'api', 'be', 'st', 'sched') if k in o},
+                              'error': o.get('raw_err'), 'reference': {'form': t['ref']['form'], 'st': t['ref']['st'],
+                                                                       'error': t['ref'].get('raw_err')},
+                              'defects': t['defects']})
+    return len(traces), s
 
 
 # ------------------------------------------------------------------------------------------------ main
@@ -326,15 +391,18 @@ def main(tier, replay=None):
     fixed = code_is_printable_first(yaml)
     q = tier == 'quick'
     states = trans = 0
-    # (a) design check: L => H
+    mc = 'MC_Reader_strict.cfg' if fixed else 'MC_Reader.cfg'
+    # (a) design check: L => H, and the MBT configurations, all runs sharing the cores
     dc = design_configs(tier, fixed)
-    jobs = [(n, dict(constants=c, tag='C07_' + n, timeout=1500 if q else 3000, heap='6g')) for n, c in dc]
-    inv = 'H_Error' if fixed else 'H_ErrorWeak'
-    for n, kw in jobs:
-        kw['constants'] = dict(kw['constants'])
-    res = run_parallel([(n, dict(kw, extra=())) for n, kw in jobs], workers=max(2, 16 // len(jobs)))
+    mcs = mbt_configs(tier, fixed)
+    jobs = [(n, dict(cfg=mc, constants=c, tag='C07_' + n, timeout=3000, heap='5g')) for n, c in dc]
+    if not fixed:       # the strict clause against the repaired model: evidence that H_Error is satisfiable by a small repair
+        jobs.append(('repair', dict(cfg='MC_Reader_strict.cfg', constants=cfg(A_ERRORS, 3, fixed=True), tag='C07_repair',
+                                    timeout=3000, heap='4g')))
+    jobs += [(n, dict(cfg=mc, constants=c, tag='C07_' + n, timeout=3000, heap='5g', coverage=False)) for n, c in mcs]
+    res = run_parallel(jobs, workers=3 if q else 4)
     fired = {}
-    for n, _ in dc:
+    for n, _kw in jobs:
         r = res[n]
         if r.violated:
             print(r.out[-3000:])
@@ -347,5 +415,52 @@ def main(tier, replay=None):
     unfired = [a for a in ACTIONS if not fired.get(a)]
     if unfired:
         raise SystemExit('machinery failure: Reader.tla actions never taken: %s' % unfired)
-    v.cov = {'states': states, 'transitions': trans}
+    # (b) replay of every complete behaviour of the MBT configurations
+    lines = []
+    for n, _c in mcs:
+        ls = parse_triples(res[n].out)
+        if not ls:
+            raise SystemExit('machinery failure: no behaviours exported by configuration %s' % n)
+        lines += ls
+    groups = {}
+    for ln in lines:
+        m = _head.match(ln)
+        groups.setdefault(m.group(3), []).append(ln)
+    glist = [groups[k] for k in sorted(groups)]
+    nchunks = 64
+    chunks = [glist[i::nchunks] for i in range(nchunks)]
+    with mp.Pool(16) as pool:
+        outs = pool.map(replay_work, [(c, SEED, 2 if q else 3) for c in chunks if c], chunksize=1)
+    n = sum(o['n'] for o in outs)
+    if n != len(lines):
+        raise SystemExit('machinery failure: replayed %d behaviours, TLC exported %d' % (n, len(lines)))
+    runs = sum(o['runs'] for o in outs)
+    kinds = {}
+    for o in outs:
+        for k, c in o['kinds'].items():
+            kinds[k] = kinds.get(k, 0) + c
+        for b in o['bad']:
+            v.violation(b['key'], b['detail'])
+    drift = sum(o['drift'] for o in outs)
+    if drift:
+        v.note('spec-drift C07/reader: %d replays where internal values (read() calls, stream_pointer, error chosen) differ '
+               'from Reader.tla although H holds, e.g. %s' % (drift, [d for o in outs for d in o['drift_ex']][:2]))
+    ptraces = [t for o in outs for t in o['traces']]
+    pmeta = [m for o in outs for m in o['meta']]
+    npipe, s2 = judge_pipe(v, ptraces, pmeta, 'C07_pipe', 'tlc-triples')
+    states += s2
+    deliveries = sum(t['ndel'] + 1 for t in ptraces)
+    v.cov = {'states': states, 'transitions': trans, 'exhaustive': True,
+             'traces_validated_against_impl': runs + deliveries,
+             'reader_behaviours_replayed': len(lines), 'reader_replays': runs, 'model_outcomes': kinds,
+             'pipeline_traces_judged': npipe, 'pipeline_deliveries': deliveries,
+             'distinct_nontrivial': sum(o['nontrivial'] for o in outs),
+             'rule': 'non-trivial = behaviour with more than two read() calls over a document with a multi-unit character, '
+                     'CR, NEL or BOM',
+             'actions_fired': fired, 'code_variant': 'printable-first' if fixed else 'as pinned',
+             'samples': [s for o in outs for s in o['samples']][:4],
+             'configs': {n: c for n, c in dc + mcs}}
+    v.assumptions = ['documents do not begin with U+FEFF; index is not compared when a byte order mark is present',
+                     'one abstract code unit = one byte (one character for text streams); Block = 4 (3) units in the model',
+                     'the codecs are CPython\'s; their contract is the operator Dec of Reader.tla']
     return v.finish()
